@@ -583,6 +583,12 @@ def _exec(w, pop, changed_ok):
                 if k1._dtype is None or k2._dtype is None or k1._dtype.kind is not int or k2._dtype.kind is not int:
                     raise Skip()
                 r = getattr(o, pop[3])(o2, k1, k2, expect="many_to_many")
+            elif kind == "transpose" and not isinstance(o, Table):
+                # v.T of a 1-D vector: the same cells shown the other way round - a derived vector like a copy
+                r = o.T
+                if isinstance(r, Table) or not isinstance(r, Vector):
+                    raise Skip()
+                return _vec_result(w, r, f"(CFrom {cnat(w.handle_of(o))} None)"), "Ok"
             elif kind == "transpose":
                 if not isinstance(o, Table) or not o._underlying or len(o) == 0:
                     raise Skip()
@@ -624,7 +630,8 @@ def _exec(w, pop, changed_ok):
             op_term, out_term = _do_sett(w, t, pop[2], changed_ok)
         elif kind == "setattr":
             t = w.slot(pop[1], "t")
-            op_term, out_term = _do_setattr(w, t, pop[2], pop[3], changed_ok)
+            op_term, out_term = _do_setattr(w, t, pop[2], pop[3], changed_ok,
+                                            indexed=(pop[4] if len(pop) > 4 else (pop[1] + pop[2]) % 3 == 0))
         elif kind == "rename":
             o = w.slot(pop[1])
             if isinstance(o, Table):
@@ -918,7 +925,7 @@ def _do_setv(w, o, key, val, changed_ok):
         # change its key operand either
         kv = w.slot(key[1], "v")
         kd = kv.__dict__
-        if kv is o or kd.get("_dtype") is None or kd["_dtype"].kind is not int or kd["_dtype"].nullable \
+        if kd.get("_dtype") is None or kd["_dtype"].kind is not int or kd["_dtype"].nullable \
                 or not kd["_underlying"] or any(type(x) is not int or not -n <= x < n for x in kd["_underlying"]):
             raise Skip()
         keyobj = kv
@@ -1033,7 +1040,7 @@ def _sett_term(w, ht, ws):
     return f"OSetT {cnat(ht)} {clist(items)}"
 
 
-def _do_setattr(w, t, ci, src, changed_ok):
+def _do_setattr(w, t, ci, src, changed_ok, indexed=False):
     from serif import Table
     cols = t.__dict__["_underlying"]
     if not cols:
@@ -1060,8 +1067,11 @@ def _do_setattr(w, t, ci, src, changed_ok):
         value = list(src[1])
         o2 = None
     hnew = w.reserve(1)[0]
+    name = acc[0]
+    if indexed and "__" not in name and not name.endswith("_") and cols[ci]._name == name:
+        name = f"{name}__{ci}"                               # the indexed accessor form t.<name>__<position> = value
     try:
-        setattr(t, acc[0], value)
+        setattr(t, name, value)
     except Exception as e:      # noqa: BLE001  wrong length is refused
         w.stats["failed_ops"] += 1
         return (f"OSetAttr {cnat(ht)} {cnat(ci)} {spec} {cnat(hnew)} 0 0", "ErrOther")
